@@ -243,6 +243,7 @@ RULES = [
     ("R-C14-prefactor", 20, "factor on <F^2> = square of the factor on <F>, up to a constant", make_c_rule("R-C14-prefactor")),
     ("R-C14-interleave", 60, "F^2,F interleave on the writer side", make_c_rule("R-C14-interleave")),
     ("R-C14-reader", 30, "reader side, Iq uses the reported volume", rule_reader),
+    ("R-C14-gauss-tables", 9, "quadrature tables are Gauss-Legendre rules on [-1, 1]: weights sum to 2, symmetric; nodes antisymmetric", _x3.rule_gauss_tables),
     ("R-C14-fastpath", 55, "equality-guarded special branches of model code agree with the general branch at the same point", _x3.rule_c14_fastpath),
     ("R-C14-minmax", 18, "min/max effective-radius modes select by the ordering of their own candidates", _x3.rule_c14_minmax),
     ("R-C14-degenerate", 100, "denominators of the radius/volume functions that vanish at equal parameters are guarded", _x3.rule_c14_degenerate),
